@@ -196,9 +196,12 @@ func scripts() []Script {
 	ro := [][]string{{"check", "pattern", "len", "openapi"}, {"openapi", "pattern"}}
 	add("regex", "regex", "/^a+$/", nil, nil, ro)
 	add("regex-invalid", "regex", "/[/", nil, nil, ro)
-	do := [][]string{{"check", "lexemes", "len"}, {"lexemes", "check"}}
+	do := [][]string{{"check", "lexemes", "len"}, {"lexemes", "check"}, {"lexemes", "len", "check"}, {"lexemes3", "check", "len"}, {"lexemes3", "len", "lexemes"}, {"len", "lexemes", "lexemes", "check"}}
 	add("doc", "doc", `{"a": [1, 2, {"b": "c"}]}`, nil, nil, do)
+	add("doc", "doc", " [true, null, -0.5]  \n", nil, nil, do)
 	add("doc-invalid", "doc", `{"a": [1, 2, }`, nil, nil, do)
+	add("doc-invalid", "doc", `[1, 2, 3] x`, nil, nil, do)
+	add("doc-invalid", "doc", `{"a": 1, "b"`, nil, nil, do)
 	return out
 }
 
@@ -464,9 +467,13 @@ func perform(o *object, sc Script, op string) (string, []held) {
 		case "doc:len":
 			n, err := o.d.Len()
 			out = fmt.Sprintf("%d,%s", n, errText(err))
-		case "doc:lexemes":
+		case "doc:lexemes", "doc:lexemes3":
 			var b strings.Builder
-			for i := 0; i < 1000; i++ {
+			limit := 1000
+			if op == "lexemes3" {
+				limit = 3 // an iteration that is left half-way
+			}
+			for i := 0; i < limit; i++ {
 				lex, err := o.d.NextLexeme()
 				if err != nil {
 					if !errors.Is(err, io.EOF) {
@@ -694,6 +701,85 @@ func describe(c Case) []string {
 func registerAll() {
 	ev.Register("histories", judged)
 	ev.Register("pairs", oracle)
+	ev.Register("question-order", questionOrder)
+}
+
+// QCase: operation Op (an index into the script's list) of script Script
+type QCase struct {
+	Script int `json:"script"`
+	Op     int `json:"op"`
+}
+
+// orderFree: questions about the input whose answer is a function of the input alone, whatever was asked of
+// the same object before (examples of regex schemas are a stream of different values by design; a lexeme
+// iteration continues where the last one stopped)
+func orderFree(sc Script, op string) bool {
+	switch sc.Kind + ":" + op {
+	case "schema:check", "schema:len", "schema:ast", "schema:used", "enum:check", "enum:values", "enum:ast", "enum:len",
+		"regex:check", "regex:pattern", "regex:len", "doc:check", "doc:len":
+		return true
+	case "schema:example", "schema:openapi", "schema:typeopenapi":
+		for _, t := range sc.Types {
+			if t.Regex {
+				return false
+			}
+		}
+		return true
+	}
+	return false
+}
+
+// questionOrder: the answer to an order-free question inside a script equals the answer a fresh object of
+// the same input gives when that question is the first one it is asked
+func questionOrder(c QCase) *ev.Verdict {
+	if c.Script < 0 || c.Script >= len(pool) || c.Op < 0 || c.Op >= len(pool[c.Script].Ops) {
+		return nil
+	}
+	sc := pool[c.Script]
+	op := sc.Ops[c.Op]
+	if !orderFree(sc, op) {
+		return nil
+	}
+	got := alone(c.Script)
+	single := sc
+	single.Ops = []string{op}
+	first := runScriptAlone(single)
+	if c.Op < len(got) && len(first) == 1 && got[c.Op] != first[0] {
+		return ev.V("answer-depends-on-earlier-questions:"+sc.Kind+":"+op, "script %d (%s, text %.80q): %s asked after %v gives\n  %.300s\nasked first, of a fresh object, it gives\n  %.300s", c.Script, sc.Class, sc.Text, op, sc.Ops[:c.Op], got[c.Op], first[0])
+	}
+	return nil
+}
+
+func TestPropQuestionOrder(t *testing.T) {
+	registerAll()
+	if i, _ := ev.Shard(); i != 0 {
+		t.Skip("not sharded")
+	}
+	ev.KeepFirst("question-order")
+	var n, nt, bad int64
+	for i, sc := range pool {
+		for k, op := range sc.Ops {
+			if !orderFree(sc, op) {
+				continue
+			}
+			n++
+			c := QCase{Script: i, Op: k}
+			if k > 0 {
+				nt++
+				ev.NonTrivial("question-order", fmt.Sprintf("%d/%d", i, k))
+			}
+			if v := questionOrder(c); v != nil && ev.Report("question-order", c, v) {
+				bad++
+			}
+		}
+	}
+	ev.Count("question-order", n)
+	ev.Sample("question-order", QCase{Script: len(pool) - 1, Op: 1})
+	ev.Exhaustive("question-order", fmt.Sprintf("every order-free question at every position of the %d scripts against the same question asked first of a fresh object", len(pool)))
+	_ = nt
+	if bad > 0 {
+		t.Errorf("VIOLATION-CANDIDATE question-order: %d", bad)
+	}
 }
 
 func TestPropHistories(t *testing.T) {
